@@ -141,6 +141,8 @@ def check(run):
     run.rule('D2', 'a validator named twice is rejected or counted once', 15)
     run.rule('D3', 'unknown signer / invalid signature / signature of another payload => rejected on every path; verify_sign is True only after verify returned, False only on BadSignatureError', 100)
     run.rule('D4', 'node id = sha256(c6b41348 | pubkey); payload = 706e0bc5 | root_hash | file_hash', 2)
+    run.rule('D2s', 'one validator named under several spellings of its id (hex case, blanks) is still one validator', 4)
+    run.rule('D5', 'no state is carried between calls: signatures accepted for one block are not accepted for another block in the same process', 2)
     run.trust('CPython ast', 'checker interpreter + polynomial normaliser', 'Ed25519 oracle model', 'SHA-256 collision-freeness')
     run.exhaustive = True
 
@@ -242,6 +244,7 @@ def check(run):
                         nfail += 1
                         if nfail <= 6:
                             run.fail(rule, 'check_block_signatures[duplicate signer]' if dup else 'check_block_signatures[threshold]', f'{tag}: {why}', w, witness=dict(n=n, seq=[list(map(str, s)) for s in seq], path=desc))
+    spellings_and_replay(run, prog, w)
     # concrete boundary cross-check of the threshold (guards against an equivalent-but-unrecognised formula being misjudged and vice versa)
     for weights, seq, want in (((1, 1, 1), (('valid', 0), ('valid', 1)), False), ((1, 1, 1), (('valid', 0), ('valid', 1), ('valid', 2)), True),
                                ((2, 1), (('valid', 0),), False), ((3, 1), (('valid', 0),), True), ((5, 5, 5), (('valid', 2), ('valid', 0)), False),
@@ -251,3 +254,80 @@ def check(run):
         ok = kinds == ({'accept'} if want else {'raise'})
         run.check(ok, 'D1', 'check_block_signatures[threshold]' if not ok else f'concrete[w={weights},signers={[i for _, i in seq]}]',
                   f'weights {weights}, valid signatures of {[i for _, i in seq]}: {sorted(kinds)} (must be {"accept" if want else "reject"}: 3*signed {">" if want else "<="} 2*total)', w)
+
+
+def spellings_and_replay(run, prog, w):
+    import hashlib
+    f = prog.func('check_block_signatures')
+
+    def setup(it, st, nvals, weights):
+        pks = [bytes([i + 1]) * 32 for i in range(nvals)]
+        nodes = []
+        for i, pk in enumerate(pks):
+            nd = Inst(prog.cls('ValidatorDescr'))
+            pko = Inst(prog.cls('SigPubKey'))
+            pko.attrs['pubkey'] = K(pk)
+            nd.attrs.update(public_key=pko, weight=K(weights[i]))
+            nodes.append(nd)
+        ids = [hashlib.sha256(NODE_MAGIC + pk).digest() for pk in pks]
+        return pks, nodes, ids
+
+    def blk(it, r, fh):
+        b = Inst(prog.cls('BlockIdExt'))
+        b.attrs.update(root_hash=K(r), file_hash=K(fh), workchain=K(-1), shard=K(-1 << 63), seqno=K(1))
+        return b
+    # ---- spellings: validator 0 (weight 4 of 10) under several textual forms of the same id
+    variants = {'lower+upper': lambda h: [h, h.upper()], 'upper x2 + spaced': lambda h: [h.upper(), ' '.join(h[i:i + 2] for i in range(0, len(h), 2)), h],
+                'lower + trailing blank': lambda h: [h, h + ' '], 'eight spellings': lambda h: [h, h.upper(), h.capitalize(), ' ' + h, h + ' ', h[:2] + ' ' + h[2:], h[:4].upper() + h[4:], h[:-2] + h[-2:].upper()]}
+    for name, mk_forms in variants.items():
+        st = dict(valid=set(), asked=[])
+        it = mk(prog, st)
+        it.CONCRETE_HASH = True
+        pks, nodes, ids = setup(it, st, 7, [4] + [1] * 6)
+        R, F = b'\x01' * 32, b'\x02' * 32
+        msg = K(SIGN_MAGIC + R + F)
+        sigs = []
+        for j, form in enumerate(mk_forms(ids[0].hex())):
+            sg = Sym(f'S{j}', ty='bytes', n=64, key=('sig', j))
+            st['valid'].add((repr(it.vkey(K(pks[0]))), repr(it.vkey(msg)), repr(it.vkey(sg))))
+            d = DictV({'node_id_short': K(form), 'signature': sg})
+            d.keyobj = {k: K(k) for k in d.d}
+            sigs.append(d)
+        try:
+            it.invoke(f, [ListV(nodes), ListV(sigs), blk(it, R, F)], {})
+            out = 'accepted'
+        except RaiseEx as e:
+            out = f'rejected ({e.kind})'
+        ok = out != 'accepted'
+        run.check(ok, 'D2s', 'check_block_signatures[duplicate signer, other spelling]' if not ok else f'spellings: {name}',
+                  f'validator 0 (weight 4 of 10) listed {len(sigs)} times as {name}: {out} (40% of the weight is not a supermajority however often it is listed)', w)
+        run.evaluations += 1
+    # ---- replay in the same process: set accepted for block A, then presented for block B
+    for nvals in (1, 3):
+        st = dict(valid=set(), asked=[])
+        it = mk(prog, st)
+        it.CONCRETE_HASH = True
+        pks, nodes, ids = setup(it, st, nvals, [5] * nvals)
+        RA, FA, RB, FB = b'\x0a' * 32, b'\x0b' * 32, b'\x0c' * 32, b'\x0d' * 32
+        msgA = K(SIGN_MAGIC + RA + FA)
+        sigs = []
+        for j in range(nvals):
+            sg = Sym(f'S{j}', ty='bytes', n=64, key=('sig', j))
+            st['valid'].add((repr(it.vkey(K(pks[j]))), repr(it.vkey(msgA)), repr(it.vkey(sg))))
+            d = DictV({'node_id_short': K(ids[j].hex()), 'signature': sg})
+            d.keyobj = {k: K(k) for k in d.d}
+            sigs.append(d)
+        try:
+            it.invoke(f, [ListV(nodes), ListV(sigs), blk(it, RA, FA)], {})
+            first = 'accepted'
+        except RaiseEx as e:
+            first = f'rejected ({e.kind})'
+        try:
+            it.invoke(f, [ListV(nodes), ListV(sigs), blk(it, RB, FB)], {})
+            second = 'accepted'
+        except RaiseEx as e:
+            second = f'rejected ({e.kind})'
+        ok = first == 'accepted' and second != 'accepted'
+        run.check(ok, 'D5', 'check_block_signatures[replay for another block]' if not ok else f'replay: {nvals} validator(s)',
+                  f'{nvals} validator(s): genuine set for block A {first}; the same signatures presented for block B in the same process: {second} (they are not signatures of B)', w)
+        run.evaluations += 1
